@@ -62,19 +62,19 @@ FAMILIES = {
              'non-trivial: some forwarding handler dispatches'),
     'C08': dict(
         gens=[('core', dict(nb=(2, 3), p_forward=0.35, p_wild=0.3), 0.5), ('core', dict(p_timeout=0.5, proglen=(1, 6)), 0.2),
-              ('chain', dict(p_timeout=0.8, p_await=0.6), 0.2), ('deep', dict(), 0.1)],
-        facets=CORE + ['results', 'signal', 'lineage', 'timeout'],
+              ('chain', dict(p_timeout=0.8, p_await=0.6), 0.2), ('deep', dict(), 0.06), ('parshare', dict(), 0.04)],
+        facets=CORE + ['results', 'signal', 'lineage', 'timeout', 'await'],
         rule='forwarding chains/diamonds with slow downstream handlers, external awaits; every state after first completion is an observation point; '
              'non-trivial: an event completes and at least 5 labels follow'),
     'C09': dict(
-        gens=[('core', dict(p_parallel=0.4, p_readbus=0.12, p_parent=0.15, p_forward=0.2), 1.0)],
-        facets=CORE + ['lineage', 'path', 'eventbus', 'dispatch'],
+        gens=[('core', dict(p_parallel=0.4, p_readbus=0.12, p_parent=0.15, p_forward=0.2), 0.92), ('backlog', dict(), 0.08)],
+        facets=CORE + ['lineage', 'path', 'eventbus', 'dispatch', 'capacity'],
         rule='parallel handlers dispatching at interleaved times, nested awaits, forwarding of roots and children, explicit parents, event_bus reads; '
              'non-trivial: a handler instance dispatches'),
     'C10': dict(
         gens=[('core', dict(p_timeout=0.6, proglen=(1, 6)), 0.45), ('chain', dict(p_timeout=1.0, p_selfparent=0.15), 0.25),
-              ('chain', dict(p_timeout=1.0, p_await=0.95, min_depth=3, nb=(1, 1), maxh=(50,)), 0.15), ('deep', dict(), 0.1),
-              ('sibling', dict(), 0.05)],
+              ('chain', dict(p_timeout=1.0, p_await=0.95, min_depth=3, nb=(1, 1), maxh=(50,)), 0.12), ('deep', dict(), 0.08),
+              ('sibling', dict(), 0.05), ('partimeout', dict(), 0.05)],
         facets=CORE + ['timeout', 'results', 'signal', 'unfinished', 'lineage', 'await', 'lock'],
         rule='per-type timeouts (odd multiples of 1/128 s) against handler programs of sleeps (multiples of 1/64 s), nested awaits; serial buses; '
              'non-trivial: a handler is cancelled by a deadline'),
@@ -136,9 +136,13 @@ def gen_backlog(rng, p_waitidle=0.0, **_):
         prog = [['dispatch', tgt, 'D', i] for i in range(n)]
         if rng.random() < 0.5:
             prog.insert(rng.randrange(len(prog)), ['sleep', 1 / 64])
+        retry = rng.random() < 0.4
         sc['handlers'].append({'bus': 0, 'key': 'A', 'kind': rng.choice(['async', 'sync']), 'prog': [p for p in prog if p[0] != 'sleep'] if False else prog})
         if sc['handlers'][-1]['kind'] == 'sync':
             sc['handlers'][-1]['prog'] = [p for p in prog if p[0] != 'sleep']
+        elif retry:
+            # let the queue drain by awaiting an early child, then dispatch the last (probably refused) events again
+            sc['handlers'][-1]['prog'] = prog + [['await', rng.randrange(3)]] + [['redispatch', n - 1 - j, tgt] for j in range(rng.randint(1, 3))]
         sc['tasks'].append([['dispatch', 0, 'A', 0], ['await', 0]])
     else:
         sc['tasks'].append([['dispatch', tgt, 'D', i] for i in range(n)] + [['sleep', 1 / 64], ['dispatch', tgt, 'D', n]])
@@ -151,7 +155,7 @@ def gen_backlog(rng, p_waitidle=0.0, **_):
     return sc
 
 
-GENS = {'core': gen.gen_core, 'backlog': gen_backlog, 'chain': gen.gen_chain, 'stop': gen.gen_stop, 'idle': gen.gen_idle, 'deep': gen.gen_deep, 'sibling': gen.gen_sibling, 'parraise': gen.gen_parraise, 'deepfwd': gen.gen_deepfwd}
+GENS = {'core': gen.gen_core, 'backlog': gen_backlog, 'chain': gen.gen_chain, 'stop': gen.gen_stop, 'idle': gen.gen_idle, 'deep': gen.gen_deep, 'sibling': gen.gen_sibling, 'parraise': gen.gen_parraise, 'deepfwd': gen.gen_deepfwd, 'parshare': gen.gen_parshare, 'partimeout': gen.gen_partimeout}
 
 
 def corpus(prop):
